@@ -51,13 +51,13 @@ def run(tier):
     for mm in rl["mismatches"]:
         chk.violation({"kind": mm["kind"], "text": mm.get("text")}, mm)
     # ---- impl -> spec
-    n, depth = (120000, 5) if thorough else (2500, 5)
+    n, depth = (60000, 5) if thorough else (2500, 5)
     trace = os.path.join(out, "gen_vals.ndjson")
     rc, txt = C.run_vh(["print", "genvals", str(n), str(depth), trace])
     g = json.loads(txt)
     for mm in g["mismatches"]:
         chk.violation({"kind": "gen_" + mm["kind"], "text": mm.get("text")}, mm)
-    tres = C.run_tlc("MC_PrintValTrace", "MC_PrintValTrace.cfg", workers=8 if thorough else 4, timeout=1800,
+    tres = C.run_tlc("MC_PrintValTrace", "MC_PrintValTrace.cfg", workers=8 if thorough else 4, timeout=1800, heap="6g" if thorough else "3g",
                      env_extra={"VERIF_IN": trace}, name="printval_trace_" + tier)
     C.require_tlc_ok(tres, "MC_PrintValTrace (validation of printed random values)")
     chk.add_tlc("MC_PrintValTrace", tres, "tokens = PrintVal(v); each route answered what the specification says")
